@@ -8,4 +8,6 @@ go build -o bin/check ./cmd/check
 go build -o bin/instr ./instr
 # warm the build cache for the harness builds (poly + deps + shims)
 for t in c12 c09; do go build -o /dev/null -tags $t ./cmd/verifbin || true; done
+# warm the -race build cache for the auxiliary free-running pass
+go build -race -tags c09 -o /dev/null ./cmd/racepass || true
 echo setup ok
